@@ -88,7 +88,7 @@ func genC20(r *Rng, tier string) *C20Scn {
 	n := len(keys)
 	// monitor cost is O(n) per evaluation and a call has O(n) yields: sample so
 	// that one scenario stays around 10^7 elementary comparisons
-	c.Every = (1 + n*n/30000) * r.PickI(1, 1, 2, 3)
+	c.Every = (1 + n*n/6000) * r.PickI(1, 1, 2, 3)
 	mix.Heavy = n <= 3000
 	qs := genQueries(r, keys, 30)
 	nt := r.Range(1, 4)
@@ -269,6 +269,9 @@ func executeC20(scn *Scenario) *RunResult {
 		xsimrt.Hook = func(site int) {
 			n++
 			yieldsInside++
+			if n > 2_000_000_000 {
+				panic(abortUnit{"stepcap"})
+			}
 			if n%int64(every) == 0 {
 				monitorEvals++
 				if bad := chk(); bad != "" {
